@@ -389,6 +389,47 @@ def read_loops(root: Path):
     return rows
 
 
+def loop_spans(root: Path):
+    """the count-driven and while loops of `read_loops` (same modules, same functions, same kind / header text) with
+    their line spans: what the malformed stream of C06 needs to find an INSTANCE of a loop of the table in a traced parse
+    -> [dict(mod, path, qual, kind, header, fn_start, fn_end, line, body_start, end)]; never raises"""
+    out = []
+    try:
+        for mod, path in modules(root):
+            if not _is_reader_module(mod):
+                continue
+            try:
+                tree = ast.parse(path.read_text(encoding="utf-8"))
+            except Exception:  # noqa
+                continue
+            for qual, node, isfn, prop in scopes(tree):
+                if not isfn or not is_reader_function(qual, prop):
+                    continue
+                for n in _own(node):
+                    if isinstance(n, (ast.For, ast.AsyncFor)):
+                        kind, header = _iter_kind(n.iter)
+                        body_start = n.body[0].lineno
+                    elif isinstance(n, ast.While):
+                        kind, header, body_start = "while", _u(n.test), n.body[0].lineno
+                    elif isinstance(n, COMPS) and n.generators:
+                        kind, header = _iter_kind(n.generators[0].iter)
+                        body_start = n.lineno
+                    else:
+                        continue
+                    if kind not in ("count", "while"):
+                        continue
+                    out.append(dict(mod=mod, path=str(path), qual=qual, kind=kind, header=header, fn_start=node.lineno,
+                                    fn_end=node.end_lineno, line=n.lineno, body_start=body_start, end=n.end_lineno))
+    except Exception:  # noqa
+        pass
+    seen = {}
+    for sp in sorted(out, key=lambda x: (x["mod"], x["qual"], x["line"])):
+        k = (sp["mod"], sp["qual"], sp["kind"], sp["header"])
+        sp["ord"] = seen.get(k, 0)          # 0 for the first loop with this row text, 1, 2 ... for its repetitions
+        seen[k] = sp["ord"] + 1
+    return out
+
+
 # ------------------------------------------------------------------------------------------------ Lean sources
 
 def alloc_source(root: Path) -> tuple[str, list]:
